@@ -20,7 +20,7 @@ RULE = ('case = (base triple: signer algorithm x signature kind x hash x produce
         'verified true and >= 1 semantic mutant was produced; distinct = distinct (base, mutation class, part) descriptors')
 ASSUMPTIONS = ['vf.ref.sig decides whether a mutant is semantic (validated on fixtures and against gpg in C02)', 'cryptography/OpenSSL primitives',
                'forgery across a 64-bit key-id collision is not attempted']
-MIN_COUNTERS = {'quick': {'semantic_mutants': 20000, 'baseline_true': 60, 'sig_bitflips': 10000, 'subject_mutants': 2000, 'key_mutants': 300,
+MIN_COUNTERS = {'quick': {'embedded_back_signature_edits': 150, 'semantic_mutants': 20000, 'baseline_true': 60, 'sig_bitflips': 10000, 'subject_mutants': 2000, 'key_mutants': 300,
                           'wrong_verifier': 20, 'type_confusion': 200, 'carrier_mutants': 2000, 'message_content_edits': 300, 'several_signature_subjects': 90, 'copies_of_altered_signatures': 2000, 'secret_form_subject_mutants': 300, 'cleartext_text_edits': 250},
                 'thorough': {'semantic_mutants': 100000, 'baseline_true': 200}}
 BUDGET = {'quick': (600, 1500), 'thorough': (1800, 3600)}
@@ -580,7 +580,90 @@ def _keycarrier(ctx, d, pgpy):
                 klass = 'valid'
         judge(ctx, klass, res, 'key-carrier-bit-flip', d, {'bit': b, 'offset': b // 8})
         n += 1
+    if d['part'] == 0:
+        _backsig_edits(ctx, d, pgpy, k, blob)
     ctx.nontrivial(d)
+
+
+def _backsig_edits(ctx, d, pgpy, k, blob):
+    """the primary-key binding signature (0x19) that a signing subkey's binding carries in its UNSIGNED area: altered in its signature integers or in
+    what it signs, or replaced by one made by another key / for another primary.  Nothing else of the key changes (the outer binding still verifies),
+    so every signature is examined exactly as before - and verify(key) must not be truthy."""
+    pk = wire.split(blob)
+    prim_pub = RK.parse_pub(pk[0].body)['pubbody']
+    target = None
+    for i, p in enumerate(pk):
+        if p.tag == 2 and p.body[1] == 0x18:
+            ps = RS.parse_sig(p.body)
+            emb = [b for t, c, b, raw in ps['usp'] if t == 32]
+            if emb:
+                subp = next(q for q in reversed(pk[:i]) if q.tag == 14)
+                target = (i, p, ps, emb[0], subp)
+                break
+    if target is None:
+        ctx.observe('no_embedded_back_signature_in_unsigned_area')
+        return
+    i, p, ps, emb, subp = target
+    sub_pub = RK.parse_pub(subp.body)['pubbody']
+    off = blob.find(emb)
+    if off < 0 or blob.find(emb, off + 1) >= 0:
+        return
+    es = RS.parse_sig(emb)
+    muts = []
+    # (a) single-bit flips inside the embedded signature: integers (not their length prefixes) and signed area
+    mo = es['mpi_offset']
+    pos = []
+    j = mo
+    while j + 2 <= len(emb):
+        n_ = (int.from_bytes(emb[j:j + 2], 'big') + 7) // 8
+        pos += list(range(j + 2, j + 2 + n_))
+        j += 2 + n_
+    pos = pos[::max(1, len(pos) // 24)] + list(range(6, 6 + min(len(es['hashed']), 12)))
+    for q in pos:
+        for bit in (0x01, 0x20):
+            m = bytearray(blob)
+            m[off + q] ^= bit
+            muts.append(('embedded-back-signature-bit-flip', {'offset_in_embedded': q, 'bit': bit}, bytes(m)))
+
+    def rebuilt(newemb):
+        usp = b''.join(raw if t != 32 else wire.subpacket(32, newemb) for t, c, b, raw in ps['usp'])
+        hl = len(ps['hashed'])
+        body = p.body[:6 + hl] + len(usp).to_bytes(2, 'big') + usp + p.body[ps['mpi_offset'] - 2:]
+        return b''.join(q.raw for q in pk[:i]) + wire.new_hdr(2, len(body)) + body + b''.join(q.raw for q in pk[i + 1:])
+    # (b) a well-formed, cryptographically correct 0x19 made by ANOTHER key (naming itself, or naming the subkey), and one made by the right
+    # subkey over another primary key
+    sm = pool.mat('ed25519_1' if d['signer'] != 'ed25519_1' else 'ed25519_2')
+    om = pool.mat('ed25519_3')
+    oprim = RK.pub_body(pool.mat('ecdsa_p256_1'))
+    ts = es['hashed']
+    for label, key_, named, prim in (('made-by-another-key', om, om, prim_pub), ('made-by-another-key-naming-the-subkey', om, sm, prim_pub), ('made-for-another-primary', sm, sm, oprim)):
+        unh = wire.subpacket(16, RK.fpr_of(named)[-8:])
+        try:
+            ne = RS.sign(key_, 0x19, 8, ts, unh, primary=prim, subkey=sub_pub)
+        except Exception:
+            continue
+        muts.append(('embedded-back-signature-' + label, {}, rebuilt(ne)))
+    for what, extra, mb in muts:
+        try:
+            ex, bad, per = _selfcheck_blob(mb)
+        except Exception:
+            ctx.count('malformed_mutants')
+            continue
+        if not bad:
+            ctx.observe('embedded_edit_not_rejected_by_reference:' + what)
+            continue
+        ctx.count('embedded_back_signature_edits')
+        try:
+            with time_limit(10):
+                k2 = pgpy.PGPKey.from_blob(mb)[0]
+                res, sv = sigwork.pgpy_verify(k2, k2)
+                res_b, _ = sigwork.pgpy_verify(k.pubkey, k2)
+        except Stalled:
+            res = res_b = 'error:stalled'
+        except Exception:
+            res = res_b = 'error:load'
+        judge(ctx, 'invalid', res, what, d, dict(extra, verifier='the altered key itself'))
+        judge(ctx, 'invalid', res_b, what, d, dict(extra, verifier='the genuine key'))
 
 
 def _msgcarrier(ctx, d, pgpy):
